@@ -178,16 +178,7 @@ theorem closePc1_ext (s : State) (p : Nat) : Ext s (closePc1 s p) := by
         · simp only [e, if_true]; exact closedPc_ext qc
         · simp only [e, if_false]; exact PcExt.refl qc
 
-theorem closePc_ext (s : State) (p : Nat) : Ext s (closePc s p) := by
-  unfold closePc
-  split
-  · exact Ext.refl s
-  · split
-    · exact Ext.refl s
-    · dsimp only
-      split
-      · exact (closePc1_ext s p).trans (closePc1_ext _ _)
-      · exact closePc1_ext s p
+theorem closePc_ext (s : State) (p : Nat) : Ext s (closePc s p) := closePc1_ext s p
 
 theorem closePcsWhere_ext (sel : PConn → Bool) (s : State) : Ext s (closePcsWhere sel s) := by
   unfold closePcsWhere
